@@ -820,7 +820,7 @@ fn shard_arrive(ch: &mut Chooser, ctx: &mut Ctx, w: &mut World, g: usize, d: Del
     let mut adm = Vec::new();
     if index >= count {
         adm.push(if d.is_rec { Error::InvalidRecoveryShardIndex { recovery_count: r, index } } else { Error::InvalidOriginalShardIndex { original_count: k, index } });
-    } else if (if d.is_rec { w.gets[g].given_r[index] } else { w.gets[g].given_o[index] }) {
+    } else if if d.is_rec { w.gets[g].given_r[index] } else { w.gets[g].given_o[index] } {
         adm.push(if d.is_rec { Error::DuplicateRecoveryShardIndex { index } } else { Error::DuplicateOriginalShardIndex { index } });
     }
     if d.data.len() != b {
